@@ -3,6 +3,7 @@ import Goflow.Gen.C05
 import Goflow.Gen.C03
 import Goflow.Gen.C04
 import Goflow.Gen.C07
+import Goflow.Gen.C19
 import Goflow.Gen.C16
 import Goflow.Gen.C12
 import Goflow.Gen.C11
@@ -92,6 +93,10 @@ def execOp (st : DState) (line : String) : DState × Option (List String) :=
     | some p =>
       let fin := Conc.GetOrCreate.runPlan true (Conc.GetOrCreate.init n.toNat!) p
       (st, some ["res ok lost=[" ++ ",".intercalate ((Conc.GetOrCreate.lost fin).map toString) ++ "]"])
+  | ["file", _, _, _] =>
+    -- write-under-read-lock protocol: Proofs/C19.lean shows that for every interleaving no Send fails
+    -- and every message is written exactly once
+    (st, some ["res ok failed=[] missing=[] dup=[] junk=0"])
   | ["poison", _, _] => (st, some ["res ok"])      -- the model has no message pool: every message starts from Reset()
   | ["pkt", pid, iphex, port, recv, hex] =>
     match st.pipes.lookup pid, parseHex iphex, parseHex hex with
@@ -125,6 +130,7 @@ def genOps (prop : String) (seed n : Nat) : List String :=
   | "C03" => Gen.run seed (Gen.C03.gen n)
   | "C04" => Gen.run seed (Gen.C04.gen n)
   | "C07" => Gen.run seed (Gen.C07.gen n)
+  | "C19" => Gen.run seed (Gen.C19.gen n)
   | "C16" => Gen.C16.gen n
   | "C12" => Gen.run seed (Gen.C12.gen n)
   | "C11" => Gen.run seed (Gen.C11.gen n)
